@@ -83,7 +83,10 @@ class MieLens(ScatteringTheory):
         illum_polarization : 2-element tuple
             The (x, y) field polarizations.
         """
-        index_ratio = scatterer.n / medium_index
+        # The calculator uses van de Hulst's exp(+i omega t) convention,
+        # in which an absorbing particle has index n - ik, whereas holopy
+        # (like Bohren & Huffman) uses n + ik:
+        index_ratio = np.conj(scatterer.n / medium_index)
         size_parameter = medium_wavevec * scatterer.r
 
         rho, phi, z = positions
